@@ -943,11 +943,42 @@ func (in *Interp) eval(e Expr, sc *scope, fr *frame) (Value, *ctl) {
 		}
 		return res, nil
 	case *MCall:
-		cur, c := in.eval(v.Root, sc, fr)
-		if c != nil {
-			return nil, c
+		start := 0
+		var cur Value
+		var c *ctl
+		if obj, pname, ok := in.inPlaceNumberTarget(v, sc, fr); ok {
+			// 自增 / 自减 on a numeric property: the number held by THIS object changes in
+			// place (and only this object's)
+			old, c := in.getProp(obj, pname)
+			if c != nil {
+				return nil, c
+			}
+			args, c := in.evalArgs(v.Chain[0].Args, sc, fr)
+			if c != nil {
+				return nil, c
+			}
+			x, isNum := old.(float64)
+			if !isNum || len(args) != 1 {
+				in.unspec("in-place number method on a non-number / wrong arguments")
+				return NullV{}, nil
+			}
+			d, isNum := args[0].(float64)
+			if !isNum {
+				in.unspec("in-place number method with a non-number argument")
+				return NullV{}, nil
+			}
+			if v.Chain[0].Name == "自减" {
+				d = -d
+			}
+			obj.Props[pname] = x + d
+			cur, start = x+d, 1
+		} else {
+			cur, c = in.eval(v.Root, sc, fr)
+			if c != nil {
+				return nil, c
+			}
 		}
-		for i := range v.Chain {
+		for i := start; i < len(v.Chain); i++ {
 			args, c := in.evalArgs(v.Chain[i].Args, sc, fr)
 			if c != nil {
 				return nil, c
@@ -985,6 +1016,32 @@ func (in *Interp) eval(e Expr, sc *scope, fr *frame) (Value, *ctl) {
 		return in.construct(cls, args)
 	}
 	panic(fmt.Sprintf("ref: unknown expression %T", e))
+}
+
+// inPlaceNumberTarget - 以其P（自增：d） / 以X之P（自增：d） with X a plain variable holding an object
+func (in *Interp) inPlaceNumberTarget(v *MCall, sc *scope, fr *frame) (*ObjV, string, bool) {
+	if len(v.Chain) == 0 || (v.Chain[0].Name != "自增" && v.Chain[0].Name != "自减") {
+		return nil, "", false
+	}
+	switch r := v.Root.(type) {
+	case *This:
+		if o, ok := fr.this.(*ObjV); ok {
+			if _, has := o.Props[r.Name]; has {
+				return o, r.Name, true
+			}
+		}
+	case *Member:
+		if rv, ok := r.Root.(*Var); ok {
+			if b := sc.lookup(rv.Name); b != nil {
+				if o, ok := b.v.(*ObjV); ok {
+					if _, has := o.Props[r.Name]; has {
+						return o, r.Name, true
+					}
+				}
+			}
+		}
+	}
+	return nil, "", false
 }
 
 func (in *Interp) evalArgs(as []Expr, sc *scope, fr *frame) ([]Value, *ctl) {
